@@ -19,6 +19,8 @@ BASELINE = os.path.join(VERIF, 'contracts', 'baseline_obligations.json')
 
 
 def load_baseline():
+    if os.environ.get('VERIF_EMPTY_BASELINE'):
+        return set()          # tools/mkbaseline.py: regenerate without touching the committed file until the end
     try:
         return set(json.load(open(BASELINE)))
     except FileNotFoundError:
